@@ -446,7 +446,8 @@ impl World {
                 let rec = self.call(addr, Input::Timer(timer));
                 // the world delivers every timer exactly once, in deadline order (however late): C13 says
                 // handle_timer never returns an error then
-                if let Some(r) = &rec {
+                let wrapped = self.procs[i].as_ref().is_some_and(|p| p.monitors.token_wrapped);
+                if let (Some(r), false) = (&rec, wrapped) {
                     if let Res::Err(e) = r.result {
                         self.violations.push(Violation {
                             property: "C13",
